@@ -330,6 +330,8 @@ pub fn run(started: Instant) -> i32 {
         j["prefix_lengths"] = json!("0..=len");
         rep.sample(j);
     }
+    cli_part(&mut rep, thorough);
+    bounds["mlar_repair"] = json!("the rich base programs x 4 layer combos: every prefix length given to the mlar binary (default mode and --allow-unauthenticated-data), result compared with the library repair of the same prefix in the same mode");
     infra::run_part("p", "production", &mut rep);
     bounds["production_tier"] = json!("build P: interleaved 2-file archive; every prefix length within +-17 (quick) / +-20 (thorough) of header end, chunk edges, tag starts and the end [thorough: all 4 layer combos + 100 seeded lengths, supplementary]");
     if thorough {
@@ -337,6 +339,53 @@ pub fn run(started: Instant) -> i32 {
         bounds["second_scale"] = json!("the quick base set re-run on scale set S2 (chunk 64, cipher buffer 16, fail-safe buffer 8)");
     }
     infra::finish(rep, meta(bounds), started)
+}
+
+/// The same truncations through `mlar repair`: the tool must write what the library repair recovers in the
+/// mode its options select (default: authenticated data only).
+fn cli_part(rep: &mut Report, thorough: bool) {
+    let exe = crate::cli::mlar_path("s");
+    if !exe.exists() {
+        rep.notes.push("mlar binary not built: repair through the CLI not exercised".to_string());
+        return;
+    }
+    let mut jobs: Vec<(Program, Cfg, bool)> = Vec::new();
+    for (pi, p) in families::bases(Entropy::Pattern).into_iter().enumerate() {
+        if !thorough && pi % 3 != 0 {
+            continue;
+        }
+        for l in L4::ALL {
+            for unauth in [false, true] {
+                if unauth && !l.encrypted() && !thorough {
+                    continue;
+                }
+                jobs.push((p.clone(), Cfg::lvl(l, 5), unauth));
+            }
+        }
+    }
+    let r = infra::par_explore(&jobs, |(p, cfg, unauth), rep| {
+        let Ok(Ok((archive, _))) = guard(|| prog::build(p, cfg)) else { return };
+        let scratch = crate::cli::Scratch::new("c02cli");
+        sweep::write_key0(scratch.path());
+        for n in 0..=archive.len() {
+            infra::watch_touch();
+            rep.evaluations += 1;
+            rep.transitions += 2;
+            let h = fnv(format!("cli{p:?}{cfg:?}{unauth}{n}").as_bytes());
+            rep.state(h);
+            rep.nontrivial(h);
+            match sweep::cli_repair_disagrees(&exe, scratch.path(), &archive[..n], cfg.layers.encrypted(), *unauth) {
+                None => rep.class(&format!("mlar-repair/{}/agrees", cfg.layers.tag())),
+                Some(d) => rep.violate(Violation {
+                    sig: json!({"kind": "mlar_repair_differs_from_library_repair", "layers": cfg.layers.tag(), "mode": mode_tag(*unauth)}),
+                    detail: format!("{} ({}), prefix {n} of {}: {d}", p.short(), cfg.layers.tag(), archive.len()),
+                    replay: json!({"cli": true, "program": p.json(), "cfg": cfg.json(), "unauthenticated": unauth, "archive_hex": hex::encode(&archive), "prefix_len": n}),
+                    weight: n as u64,
+                }),
+            }
+        }
+    });
+    rep.merge(r);
 }
 
 fn meta(bounds: Value) -> Meta {
@@ -356,6 +405,17 @@ pub fn replay(path: &str, which: Which) -> i32 {
     let unauth = v["unauthenticated"].as_bool().unwrap_or(false);
     let archive = hex::decode(v["archive_hex"].as_str().unwrap_or("")).unwrap_or_default();
     let n = v["prefix_len"].as_u64().unwrap_or(0) as usize;
+    if v["cli"].as_bool().unwrap_or(false) {
+        let scratch = crate::cli::Scratch::new("c02cli");
+        sweep::write_key0(scratch.path());
+        let d = sweep::cli_repair_disagrees(&crate::cli::mlar_path("s"), scratch.path(), &archive[..n.min(archive.len())], cfg.layers.encrypted(), unauth);
+        println!("replay: mlar repair of the {n}-byte prefix ({}, {}): {:?}", cfg.layers.tag(), mode_tag(unauth), d);
+        if d.is_some() {
+            println!("VIOLATION property={} replay={path}", if which == Which::C02 { "C02" } else { "C05" });
+            return 1;
+        }
+        return 0;
+    }
     let model = p.model();
     let mut verdicts = Vec::new();
     for _ in 0..2 {
